@@ -62,6 +62,12 @@ for sh, desc in SHAPES:
             _c19['c19_from_bare_%s_%s' % (ty, sh)] = {'obl': 'from_bare_yaml.%s.%s' % (ty, sh), 'kind': 'bounded',
                 'bound': 'a single leaf node of shape %s' % desc,
                 'what': '%s::from_bare_yaml keeps the data of the leaf' % {'yaml': 'Yaml', 'marked': 'MarkedYaml', 'owned': 'YamlOwned'}[ty], 'tier': 'quick'}
+for nm, txt, st in [('int_plain', '1', 'Plain'), ('null_plain', '~', 'Plain'), ('bool_plain', 'true', 'Plain'),
+                    ('int_dq', '1', 'DoubleQuoted'), ('int_sq', '1', 'SingleQuoted'), ('int_literal', '1', 'Literal'),
+                    ('null_dq', '~', 'DoubleQuoted'), ('bool_folded', 'true', 'Folded')]:
+    _c19['c19_deferred_' + nm] = {'obl': 'parse_representation.deferred-eq-eager.' + nm, 'kind': 'bounded',
+        'bound': 'the concrete untagged Representation node ("%s", %s) - symbolic text did not finish; f64::from_str (never reached for this text) stubbed out' % (txt, st),
+        'what': 'resolving the deferred node gives what eager loading gives: a type-like text is typed in plain style and stays a string in a quoted or block style', 'tier': 'quick'}
 _c19['c19_scalar_owned_round_trip'] = {'obl': 'scalar.into_owned.as_scalar', 'kind': 'bounded',
     'bound': 'Null, Boolean(any), Integer(any i64), String("ab"); floats excluded (NaN != NaN)',
     'what': 'Scalar -> ScalarOwned (into_owned) -> Scalar (as_scalar) gives back the same scalar', 'tier': 'quick'}
